@@ -591,7 +591,7 @@ def suite_relay(tier, seed, backend="sql", n=None, hostile=False, label="relay",
               "notify tasks; the real web.start_client + storage run under gates, the recorded schedule is replayed through Relay.Model.run; "
               "per-connection transcripts, the registry after every operation and the pending count must be equal; non-trivial = more than 3 frames sent")
     rng = rng_for(seed, "relay-%s-%s" % (backend, label))
-    n = n or (60 if tier == "quick" else 600)
+    n = n or (60 if tier == "quick" else 250)
     cases, impls, healths = [], [], []
     for _ in range(n):
         case, impl, health = env.run(scenario(rng, backend, tier, hostile))
@@ -879,8 +879,7 @@ def suite_exhaustive(tier, seed, backend="sql", pid="RELAY"):
         [(0, ["REQ", "s", F2]), (0, ["EVENT", evs[3]]), (1, ["REQ", "s", F1])],
         [(1, ["EVENT", evs[2]]), (0, ["REQ", "a", F1]), (1, ["EVENT", evs[3]])],
     ]
-    if tier != "thorough":
-        scripts = scripts[:1]
+    scripts = scripts[:1] if tier != "thorough" else scripts[:2]
     cases, impls, healths = [], [], []
 
     async def one(script, slots):
